@@ -313,6 +313,10 @@ func (ex *Exec) execInstr(fr *Frame, st *State, in ssa.Instruction) {
 		}
 		l := ex.resolve(p)
 		ex.nilCheck(st, p, in, "store")
+		if a, ok := in.Addr.(*ssa.Alloc); ok && a.Comment != "" {
+			// at assign:NAME[#k]: an assignment to the named local variable, $0 the value assigned
+			ex.atObligations(fr, st, "assign:"+a.Comment, in, map[string]*Value{"$0": v})
+		}
 		if isElemOrFieldStore(in) {
 			// at store[#k]: $0 the value stored, $1 the index (element stores)
 			vars := map[string]*Value{"$0": v}
